@@ -15,6 +15,10 @@
    * the supporting single-process facts over ALL label sequences of the model: one PREPARE and one COMMIT per round,
      a ROUND-CHANGE carries a prepared round at least every round the member committed in (and the committed value
      if equal), every Decide is backed by a commit quorum; and the quorum arithmetic.
+   * [C02_agreement_refuted_if_compare_arbitrary]: the documented NEGATIVE result -- an execution of Net.v (n = 4, one
+     Byzantine member) recorded from the real core/qbft.Run in which Compare answers differently for the same
+     (member, value) at different times and two honest members decide different values.  This is why agreement is stated
+     for executions without compare failures (resp. needs a verdict that is a function of (member, value)).
    * [C02_agreement_observed]: the same conclusion for every global trace the executable replay [nrun] accepts; the
      check replays the cluster executions recorded from the real qbft.Run through [nrun] (Qbft/Corr.v).
 
@@ -22,11 +26,10 @@
      | Theorem agreement : the same with CmpFail allowed at process i on value x only if cmpfail i x for a fixed relation
        (the compareFailureRound+1 shortcut of isJustifiedPrePrepare); needs the "contiguous chain of failed comparisons"
        argument on top of Qbft/Agreement.v.
-     | Theorem agreement_refuted_if_compare_arbitrary : n = 4 witness when CmpFail may depend on more than (process, value).
    Proofs: Common/Quorum.v, Qbft/ModelFacts.v, Qbft/Inv.v, Qbft/NetInv.v, Qbft/Agreement.v. *)
 From Coq Require Import List NArith Arith Bool.
 From Charon Require Import Common.Quorum Qbft.Model Qbft.Monitor Qbft.ModelFacts Qbft.Inv Qbft.Card Qbft.Net Qbft.NetInv
-  Qbft.Agreement Qbft.NetExamples.
+  Qbft.Agreement Qbft.NetExamples Qbft.Refuted.
 Import ListNotations.
 
 (* quorum n = ceil(2n/3), faulty n = floor((n-1)/3): the Go definitions. *)
@@ -120,3 +123,12 @@ Theorem C02_net_nonvacuous :
   /\ length (trace_decides exnet_trace) = 3.
 Proof. exact (conj exnet_accepted (conj exnet_nofail (f_equal (@length _) exnet_decides))). Qed.
 Print Assumptions C02_net_nonvacuous.
+
+(* NEGATIVE result: with compare verdicts that are not a function of (member, value), agreement fails (n = 4, f = 1): the
+   execution below is accepted by the network semantics, has one Byzantine member, and two honest members decide 7 and 8. *)
+Theorem C02_agreement_refuted_if_compare_arbitrary :
+  exists c tr nt, wf_cfg c /\ nrun c net_init tr = Some nt /\ nreach c nt tr
+    /\ exists i v r j v' r', In (i, v, r) (trace_decides tr) /\ In (j, v', r') (trace_decides tr)
+                             /\ good c i /\ good c j /\ v <> v'.
+Proof. exact agreement_refuted_if_compare_arbitrary. Qed.
+Print Assumptions C02_agreement_refuted_if_compare_arbitrary.
